@@ -1,5 +1,5 @@
 """C20 dump_to_sql leaves the table in the state its mode prescribes."""
-import copy, json, datetime, decimal
+import copy, json, datetime, decimal, tempfile
 from common import *
 from flowutil import *
 import dataflows as DF
@@ -12,7 +12,7 @@ RULE = ('cases = sequences of 1-5 dumps into one SQLite table x mode per dump (r
         'from the primary key (single and composite, with nulls) x batch size (1, 2, 1000) x bloom filter on/off x repeated keys '
         'inside one dump; a few cases with array/object columns; after every dump the table is read back with SELECT *; '
         'non-trivial = an update hits an existing key or a batch boundary is crossed; distinct = distinct case digest'
-        '; round 4: history cases optionally declare schema missingValues without the empty string and hold empty strings in value and key columns')
+        '; round 7: a rewrite over a table whose column had another type (numeric-looking strings, integers into a text column), and the downstream rows observed through results() or behind a second dumper; round 4: history cases optionally declare schema missingValues without the empty string and hold empty strings in value and key columns')
 TRUSTED = ['Coq 8.16.1 kernel + vm_compute', 'harness/p20.py oracle',
            'SQLite / SQLAlchemy / tableschema_sql.Writer are modelled (UPDATE..WHERE keys, batched INSERT, Bloom filter as any superset predicate), not verified; the model is compared with them on every case',
            'Python equality of key tuples is an equivalence (hypothesis of C20_update_with_filter)']
@@ -50,7 +50,27 @@ def gen_cases(rng, tier):
                         r['v'] = ''
                     if rng.chance(0.2):
                         r['k2'] = ''
+        if rng.chance(0.35):
+            # how the rows that continue downstream are observed: by the caller of results() (which validates them against
+            # the schema once more) or behind a second dumper (round 7)
+            c['via'] = rng.pick(['results', 'then_dump'])
+            if c['via'] == 'then_dump':
+                # the flags are keys the schema does not declare and a file dumper refuses such rows (KeyError): what a
+                # later dumper accepts is not this property's matter, so the second dumper sees rows without flags
+                c['flags'] = False
         cases.append(c)
+    for i in range(max(6, n // 6)):
+        # a table written by an earlier dump with other column types, then rewritten: it holds exactly the dumped rows,
+        # values and types (numeric-looking strings stay strings, integers stay integers) (round 7)
+        t1, t2 = rng.pick([('integer', 'string'), ('string', 'integer'), ('number', 'string'), ('date', 'string'), ('string', 'string'),
+                           ('integer', 'integer')])
+        pools = {'integer': [7, 42, 1000, 0, None], 'number': [decimal.Decimal('1.5'), decimal.Decimal('7'), None],
+                 'date': [datetime.date(2020, 1, 2), None], 'string': ['007', '1e3', '1.50', 'x-9', '0042', '12', ' 5', None]}
+        mk = lambda t: [{'k': j, 'code': rng.pick(pools[t])} for j in range(rng.randint(1, 5))]
+        dumps = [{'type': t1, 'mode': rng.pick(['rewrite', 'append']), 'rows': mk(t1)}, {'type': t2, 'mode': 'rewrite', 'rows': mk(t2)}]
+        if rng.chance(0.5):
+            dumps.append({'type': t2, 'mode': 'append', 'rows': [dict(r, k=r['k'] + 10) for r in mk(t2)]})
+        cases.append({'kind': 'retype', 'dumps': [dict(d, rows=rows_enc(d['rows'])) for d in dumps], 'pk': rng.chance(0.5)})
     for i in range(max(4, n // 8)):
         # array/object columns: the engine gets converted copies; pairing of written and original rows across batches
         # nested values the engine conversion turns into text (dates, decimals inside objects and arrays) must
@@ -101,6 +121,18 @@ def run_impl(case):
         return {'down': rows_enc([dict((k, r.get(k)) for k in ('k', 'arr', 'obj')) for r in down]),
                 'flags': [r.get('_upd') for r in down] if case.get('flags') else None,
                 'table': select_all(engine, ['k', 'arr', 'obj'])}
+    if case['kind'] == 'retype':
+        steps = []
+        for d in case['dumps']:
+            rows = rows_dec(d['rows'])
+            res = [{'name': 'r', 'fields': [{'name': 'k', 'type': 'integer'}, {'name': 'code', 'type': d['type']}], 'rows': rows,
+                    'pk': ['k'] if case.get('pk') else None}]
+            out = run_stream(res, [DF.dump_to_sql({'t': {'resource-name': 'r', 'mode': d['mode']}}, engine=engine)], rerun=False)
+            if 'error' in out:
+                steps.append({'error': out['exc']})
+                break
+            steps.append({'table': [[t['k'], repr(t['code'])] for t in (select_all(engine, ['k', 'code']) or [])]})
+        return {'steps': steps}
     cols = ['k', 'k2', 'v', 'n']
     fields = [{'name': 'k', 'type': 'integer'}, {'name': 'k2', 'type': 'string'}, {'name': 'v', 'type': 'string'}, {'name': 'n', 'type': 'integer'}]
     steps = []
@@ -112,7 +144,13 @@ def run_impl(case):
         kw = {'batch_size': d['batch'], 'use_bloom_filter': d['bloom']}
         if case['flags']:
             kw['updated_column'] = '_upd'
-        out = run_stream(res, [DF.dump_to_sql({'t': spec}, engine=engine, **kw)], rerun=False)
+        if case.get('via') == 'results':
+            out = run_results(res, [DF.dump_to_sql({'t': spec}, engine=engine, **kw)])
+        elif case.get('via') == 'then_dump':
+            with tempfile.TemporaryDirectory(dir='/var/tmp') as td:
+                out = run_stream(res, [DF.dump_to_sql({'t': spec}, engine=engine, **kw), DF.dump_to_path(td)], rerun=False)
+        else:
+            out = run_stream(res, [DF.dump_to_sql({'t': spec}, engine=engine, **kw)], rerun=False)
         if 'error' in out:
             steps.append({'error': out['exc']})
             break
@@ -167,6 +205,23 @@ def oracle(case, out):
             return 'array/object table after a %s dump (batch=%s): %r, the mode prescribes %r' % (case.get('mode'), case.get('batch'), got, table)
         if out.get('flags') is not None and [bool(f) for f in out['flags']] != flags:
             return 'updated flags %r, truthful flags are %r' % (out['flags'], flags)
+        return None
+    if case['kind'] == 'retype':
+        def stored(v, t):       # what SQLite hands back for a value of a column declared for type t
+            if isinstance(v, decimal.Decimal):
+                return float(v)
+            if isinstance(v, datetime.date):
+                return v.isoformat()
+            return v
+        table = []
+        for i, (d, st) in enumerate(zip(case['dumps'], out['steps'])):
+            if 'error' in st:
+                return 'dump %d (%s, code is %s) failed: %s' % (i + 1, d['mode'], d['type'], st['error'])
+            rows = [[r['k'], repr(stored(r['code'], d['type']))] for r in rows_dec(d['rows'])]
+            table = rows if d['mode'] == 'rewrite' else table + rows
+            if sorted(map(repr, st['table'])) != sorted(map(repr, table)):
+                return 'after dump %d (%s, column code declared %s, earlier %s) the table holds %r, the dumped rows are %r' % (
+                    i + 1, d['mode'], d['type'], case['dumps'][0]['type'], st['table'], table)
         return None
     table = []
     for d, st in zip(case['dumps'], out['steps']):
